@@ -24,8 +24,13 @@ func TestMain(m *testing.M) {
 	// Children inherit an ignored SIGQUIT across exec (Go programs re-install their own handler, so the Go helpers are
 	// not affected): this is how the "ignore-quit-inherited" scripts get a command that ignores the interrupt from its
 	// very first instruction, without the start-up window of a helper that has to install a handler first.
-	signal.Ignore(syscall.SIGQUIT)
-	testscript.Main(tskit.MainWrapper{M: m, After: rec.Flush}, tskit.Commands())
+	// (Not in the helper commands themselves - they are this binary under another name and run TestMain too: a helper
+	// that is meant to exit on the interrupt must not ignore it.)
+	cmds := tskit.Commands()
+	if _, helper := cmds[filepath.Base(os.Args[0])]; !helper {
+		signal.Ignore(syscall.SIGQUIT)
+	}
+	testscript.Main(tskit.MainWrapper{M: m, After: rec.Flush}, cmds)
 }
 
 type scriptSpec struct {
@@ -77,6 +82,7 @@ func runCase(c dlCase) (fail *vt.Fail, soft string) {
 		kind      string
 		blockLine int
 		pidfile   string
+		extraPid  string
 	}
 	var exps []exp
 	for i, s := range c.Scripts {
@@ -99,6 +105,21 @@ func runCase(c dlCase) (fail *vt.Fail, soft string) {
 			lines = append(lines, neg+"exec vmain block --ignore-quit --pid="+pf)
 		case "ignore-quit-inherited":
 			lines = append(lines, neg+fmt.Sprintf("exec sh -c 'echo $$ >%s.tmp; mv %s.tmp %s; exec sleep 60'", pf, pf, pf))
+		case "bg-wait":
+			// two background commands and a bare wait that is executing when the deadline fires: the first dies on the
+			// interrupt (so the wait notices the timeout); the second ignores that interrupt - background commands are
+			// never force-killed - and goes away on the SIGINT that the end-of-script cleanup sends to every command still
+			// on the list. Both give up by themselves some seconds after the deadline: an interrupt that arrives while a
+			// helper is still starting up (this process ignores SIGQUIT, children inherit that until the Go runtime has
+			// installed its handlers) is lost and never sent again, and the unchanged code then waits for the helper.
+			pf2 := pf + "b"
+			e.extraPid = pf2
+			die := c.DeadlineMS + 8000
+			lines = append(lines,
+				fmt.Sprintf("exec vmain block --die-after=%d --pid=%s &", die, pf),
+				fmt.Sprintf("exec vmain block --ignore-quit --exit-on-int --die-after=%d --ready=ready2 --pid=%s &", die, pf2),
+				"exec vmain waitfile ready2",
+				"wait")
 		case "consume":
 			// finishes by itself after using up a fraction of the budget (EdgeMS is the percentage of D)
 			ms := int(D/time.Millisecond) * s.EdgeMS / 100
@@ -169,9 +190,21 @@ func runCase(c dlCase) (fail *vt.Fail, soft string) {
 			}
 		}
 		// no child left behind
-		if b, err := os.ReadFile(e.pidfile); err == nil {
-			if tskit.Alive(strings.TrimSpace(string(b))) {
-				return vt.Failf("child-left-behind", "a helper process is still alive after RunT returned%s", ctx), ""
+		for _, pf := range []string{e.pidfile, e.extraPid} {
+			if pf == "" {
+				continue
+			}
+			if b, err := os.ReadFile(pf); err == nil {
+				if tskit.Alive(strings.TrimSpace(string(b))) {
+					var pid int
+					fmt.Sscan(string(b), &pid)
+					if pid > 1 {
+						if p, err := os.FindProcess(pid); err == nil {
+							p.Kill() // do not leave it behind in the sandbox
+						}
+					}
+					return vt.Failf("child-left-behind", "a process started by the script is still alive after RunT returned%s", ctx), ""
+				}
 			}
 		}
 		switch e.kind {
@@ -186,6 +219,23 @@ func runCase(c dlCase) (fail *vt.Fail, soft string) {
 			}
 			if sub.Verdict != "pass" || !ranAfter {
 				return vt.Failf("early-script-affected", "a script that finishes long before the deadline was reported %s (later line ran: %v)%s", sub.Verdict, ranAfter, ctx), ""
+			}
+		case "bg-wait":
+			last.blocked = true
+			if sub.Verdict != "fail" {
+				return vt.Failf("blocked-script-not-failed", "a script blocked in wait at the deadline was reported %s%s", sub.Verdict, ctx), ""
+			}
+			if _, msgs := tskit.FailLines(sub.Log, rr.Files[i]); len(msgs) == 0 || !strings.Contains(msgs[0], "timed out") {
+				return vt.Failf("no-timeout-message", "the log should carry a timed-out message, found %q%s", msgs, ctx), ""
+			}
+			if ranAfter {
+				return vt.Failf("line-ran-after-timeout", "a line after the timed-out wait still ran%s", ctx), ""
+			}
+			if st := sub.Start.Sub(t0); st < D-2*g-50*time.Millisecond && t < D-2*g-20*time.Millisecond {
+				return vt.Failf("stopped-too-early", "the waiting script was stopped after %v, before the interrupt time %v%s", t.Round(time.Millisecond), D-2*g, ctx), ""
+			}
+			if t > D+300*time.Millisecond && soft == "" {
+				soft = fmt.Sprintf("the waiting script finished %v after the RunT call, later than the deadline %v%s", t.Round(time.Millisecond), D, ctx)
 			}
 		case "block", "ignore-quit", "ignore-quit-inherited":
 			last.blocked = true
@@ -222,6 +272,12 @@ func runCase(c dlCase) (fail *vt.Fail, soft string) {
 			}
 			if t < lower {
 				return vt.Failf("stopped-too-early", "the blocked command was stopped after %v, before the documented time %v%s", t.Round(time.Millisecond), lower, ctx), ""
+			}
+			// a helper that exits on the interrupt shows the runtime's SIGQUIT dump in the script log and is gone well before
+			// the kill time: a command that had to be force-killed although it does not ignore the interrupt was never
+			// interrupted (soft: the interrupt may have arrived while the helper was still starting up)
+			if e.kind == "block" && !late && soft == "" && !strings.Contains(sub.Log, "SIGQUIT: quit") && t >= intr+g-20*time.Millisecond {
+				soft = fmt.Sprintf("a command that exits on the interrupt was only stopped at the kill time (%v, interrupt due at %v, kill at %v) and its output shows no interrupt%s", t.Round(time.Millisecond), intr, intr+g, ctx)
 			}
 			if t > D+slack && t > intr+g+slack && soft == "" {
 				soft = fmt.Sprintf("the blocked script finished %v after the RunT call, later than the deadline %v (interrupt is due at %v, kill at %v)%s", t.Round(time.Millisecond), D, intr, intr+g, ctx)
@@ -266,7 +322,11 @@ func checkDeadline(c dlCase) *vt.Fail {
 		}
 		soft = s
 	}
-	return vt.Failf("finished-after-deadline", "three runs in a row on a responsive machine: %s", soft)
+	key := "finished-after-deadline"
+	if strings.Contains(soft, "shows no interrupt") {
+		key = "never-interrupted"
+	}
+	return vt.Failf(key, "three runs in a row on a responsive machine: %s", soft)
 }
 
 func trunc(s string, n int) string {
@@ -297,7 +357,7 @@ func genDeadline(t *rapid.T) dlCase {
 	}
 	n := rapid.IntRange(1, 4).Draw(t, "nscripts")
 	for i := 0; i < n; i++ {
-		s := scriptSpec{Kind: rapid.SampledFrom([]string{"early", "block", "block", "ignore-quit", "ignore-quit", "sleep-edge", "ignore-quit-inherited"}).Draw(t, "kind"), Before: rapid.IntRange(0, 2).Draw(t, "before")}
+		s := scriptSpec{Kind: rapid.SampledFrom([]string{"early", "block", "block", "ignore-quit", "ignore-quit", "sleep-edge", "ignore-quit-inherited", "bg-wait"}).Draw(t, "kind"), Before: rapid.IntRange(0, 2).Draw(t, "before")}
 		s.Neg = rapid.IntRange(0, 3).Draw(t, "neg") == 0
 		s.EdgeMS = rapid.IntRange(-30, 30).Draw(t, "edge")
 		s.AtKill = rapid.Bool().Draw(t, "atkill")
@@ -334,6 +394,7 @@ var scenarios = []dlCase{
 	{DeadlineMS: 600, Scripts: []scriptSpec{{Kind: "ignore-quit-inherited", Neg: true}, {Kind: "early"}, {Kind: "block", Before: 2}}},
 	// a deadline closer than two grace periods: the interrupt time is already past when the scripts start
 	{DeadlineMS: 120, Scripts: []scriptSpec{{Kind: "ignore-quit-inherited"}, {Kind: "block", Before: 1}}},
+	{DeadlineMS: 700, Scripts: []scriptSpec{{Kind: "bg-wait", Before: 1}, {Kind: "early"}}},
 }
 
 func TestScenarios(t *testing.T) {
